@@ -30,8 +30,9 @@ ROOT = Path(__file__).resolve().parent.parent          # the /verif checkout
 LEAN = ROOT / "lean"
 REPO = Path(os.environ.get("ASYNKIT_REPO", "/repo"))   # overridable for self-validation only
 SRC = REPO / "src"
-EVIDENCE = ROOT / "evidence"
-REPLAYS = ROOT / "replays"
+# development runs against mutated copies write their evidence/replays elsewhere (tools/run_seeded.py)
+EVIDENCE = Path(os.environ.get("VERIF_EVIDENCE_DIR") or (ROOT / "evidence"))
+REPLAYS = Path(os.environ.get("VERIF_REPLAYS_DIR") or (ROOT / "replays"))
 KNOWN = ROOT / "known_findings.json"
 STD_AXIOMS = {"propext", "Classical.choice", "Quot.sound"}
 FORBIDDEN = re.compile(
@@ -272,6 +273,13 @@ def load_known(prop: str):
     return [f for f in data.get("findings", []) if f.get("property") == prop]
 
 
+def _rel(path: Path) -> str:
+    try:
+        return str(path.relative_to(ROOT))
+    except ValueError:
+        return str(path)
+
+
 def finish(ctx: Ctx, plugin) -> int:
     known_open = {f["key"]: f for f in load_known(ctx.prop) if f.get("status") == "open"}
     REPLAYS.mkdir(exist_ok=True)
@@ -291,8 +299,8 @@ def finish(ctx: Ctx, plugin) -> int:
             "property": ctx.prop, "seed": ctx.seed, "tier": ctx.tier, "kind": "violation",
             "key": v["key"], "what": v["what"], "case": v["case"], "expected": v["expected"],
             "observed": v["observed"], "theorem": v["theorem"],
-            "rerun": f"./check {ctx.prop} --replay {path.relative_to(ROOT)}"}, indent=1, default=str))
-        lines.append(f"VIOLATION property={ctx.prop} replay={path.relative_to(ROOT)}")
+            "rerun": f"./check {ctx.prop} --replay {_rel(path)}"}, indent=1, default=str))
+        lines.append(f"VIOLATION property={ctx.prop} replay={_rel(path)}")
         reported += 1
         rc = 1
     broken = [o for o in ctx.obligations if not o["ok"]]
@@ -309,7 +317,7 @@ def finish(ctx: Ctx, plugin) -> int:
                for d in ctx.disagreements[:5]],
             "details": what,
             "rerun": f"./check {ctx.prop} --tier {ctx.tier}"}, indent=1, default=str))
-        lines.append(f"VIOLATION property={ctx.prop} replay={path.relative_to(ROOT)} no-failing-input-found")
+        lines.append(f"VIOLATION property={ctx.prop} replay={_rel(path)} no-failing-input-found")
         reported += 1
         rc = 1
     elif (broken or ctx.disagreements):
